@@ -171,10 +171,22 @@ class Run:
             for j in jobs:
                 self.results.extend(_call(j))
             return
+        # ProcessPoolExecutor instead of multiprocessing.Pool: when a worker dies (e.g. killed by the kernel's OOM killer) Pool.imap waits for ever for the lost
+        # task, whereas the executor raises BrokenProcessPool - reported as a checker error for the obligations that did not finish, never a hang
+        from concurrent.futures import ProcessPoolExecutor
+        from concurrent.futures.process import BrokenProcessPool
+
         ctx = mp.get_context("fork")
-        with ctx.Pool(procs, maxtasksperchild=50) as pool:
-            for rs in pool.imap(_call, jobs, chunksize=1):
-                self.results.extend(rs)
+        done = 0
+        try:
+            with ProcessPoolExecutor(max_workers=procs, mp_context=ctx) as ex:
+                for rs in ex.map(_call, jobs, chunksize=1):
+                    self.results.extend(rs)
+                    done += 1
+        except BrokenProcessPool:
+            for name, kind, _, _ in jobs[done:]:
+                self.results.append({"name": name, "kind": kind, "status": "error", "backend": "", "time_s": 0.0,
+                                     "detail": "a worker process of the check died (killed, e.g. out of memory) before this obligation was decided"})
 
     # ------------------------------------------------------------------------------------
     def _known(self):
